@@ -875,7 +875,7 @@ impl Spec {
                 self.clones_alive[*k - 1] = false;
                 LifeOutcome::CloneNoVerify
             }
-            Op::MakeRef(k) => {
+            Op::MakeRef(k) | Op::MakeRefClone(k) => {
                 if *k == 0 {
                     if !self.original_alive {
                         return None;
